@@ -10,5 +10,5 @@ type Holder struct{ F I }
 
 func F() int {
 	hs := []Holder{{F: &T{}}}
-	return *hs[0].F.M() //KNOWN:F41-b9
+	return *hs[0].F.M() //REPORT
 }
